@@ -721,6 +721,26 @@ def plan(tier, seed):
             for _ in range(N_SHARDS)]
 
 
+def _row_classes_present():
+    """Row classes that must be met because the bundled tables contain them (oracle's view)."""
+    try:
+        t = T()
+    except Exception:  # noqa: BLE001  (run() reports an unreadable table as inconclusive)
+        return []
+    out = ['row:element_without_mass']
+    if any(w is None for _, w in t.weights.values()):
+        out.append('row:blank_weight')
+    if any(q.std_exact == 0 for q in t.masses.values()) or any(
+            w is not None and w.std_exact == 0 for _, w in t.weights.values()):
+        out.append('row:zero_uncertainty')
+    if any(q is None for row in t.scattering.values() for q in row.values()):
+        out.append('row:blank_scattering_cell')
+    if any(row['total_scattering_cross_section'] is None or row['absorption_cross_section'] is None
+           for row in t.scattering.values()):
+        out.append('att:blank_cross_section')
+    return out
+
+
 def requirements(tier):
     rows = tables.PINNED_ROWS
     n_att = (32 if tier == 'quick' else 1250) * N_SHARDS
@@ -742,9 +762,8 @@ def requirements(tier):
         },
         'forced': ['kind:' + k for k in KINDS] + [
             'att:table', 'att:synthetic', 'att:scalar', 'att:dense_1d', 'att:dense_2d', 'att:in_situ',
-            'att:sigma_a=0', 'att:blank_cross_section', 'row:blank_weight', 'row:zero_uncertainty',
-            'row:element_without_mass', 'row:blank_scattering_cell', 'cache:hit', 'cache:miss_after_eviction',
-        ],
+            'att:sigma_a=0', 'att:sigma_s=0', 'cache:hit', 'cache:miss_after_eviction',
+        ] + _row_classes_present(),
         'counters': {
             'rows_decided:scattering_parameters.csv': rows['scattering_parameters.csv'],
             'rows_decided:atomic_weights.csv': rows['atomic_weights.csv'],
